@@ -455,7 +455,7 @@ func TestVerifC18(t *testing.T) {
 	r.Assume("Commands reach the FSM as command.Decode(command.Encode(cmd)), as in controller/raft.applyScheduler; undecodable payloads never reach the FSM (the scheduler fails before ApplyBatch) and are only checked for panic-freedom of command.Decode.")
 
 	base := t.TempDir()
-	nCases := r.N(130, 1700)
+	nCases := r.N(130, 2400)
 	winMax := r.N(6, 8)
 	for i := 0; i < nCases; i++ {
 		if r.Skip(i) {
